@@ -1,31 +1,51 @@
 (* Facts about the symbolic primitives of Prim.v. *)
 From Bifrost Require Import Lib.Base Lib.Sym Enc.Prim.
 
+Lemma expand1_run f args i n : expand1 (run_sym (F f args i) n) = map (F f args) (seq i (S n)).
+Proof. reflexivity. Qed.
+
+Lemma same_run_spec f args i y n : same_run f args i y = Some n -> y = run_sym (F f args (S i)) n.
+Proof.
+  unfold same_run. destruct y as [z|fn l m]; [discriminate|].
+  destruct l as [|y [|? ?]]; try discriminate; [|destruct y; discriminate].
+  destruct y as [z|f' args' i']; [discriminate|].
+  destruct (Nat.eqb fn FN_RUN) eqn:E1; [|discriminate].
+  destruct (Nat.eqb f f') eqn:E2; [|discriminate].
+  destruct (Nat.eqb i' (S i)) eqn:E3; [|discriminate].
+  destruct (list_eqb sym_eqb args args') eqn:E4; [|discriminate].
+  cbn. intros H; inversion H; subst. apply Nat.eqb_eq in E1, E2, E3.
+  apply (list_eqb_spec sym_eqb sym_eqb_spec) in E4. subst. reflexivity.
+Qed.
+
+Lemma expand_compress l : expand (compress l) = l.
+Proof.
+  unfold expand. induction l as [|x l IH]; [reflexivity|].
+  destruct x as [z|f args i]; cbn [compress].
+  - cbn [flat_map expand1 app]. f_equal. exact IH.
+  - destruct (compress l) as [|y r] eqn:EC.
+    + cbn [flat_map] in IH. subst l. cbn [flat_map]. rewrite expand1_run. reflexivity.
+    + destruct (same_run f args i y) as [n|] eqn:ES.
+      * apply same_run_spec in ES. subst y. cbn [flat_map] in IH |- *.
+        rewrite expand1_run in IH. rewrite expand1_run. rewrite <- IH.
+        cbn [seq map app]. reflexivity.
+      * cbn [flat_map] in IH |- *. rewrite expand1_run. rewrite IH. reflexivity.
+Qed.
+
+Lemma unpack_pack a : unpack (pack a) = Some a.
+Proof. unfold unpack, pack. rewrite expand_compress. reflexivity. Qed.
+
 Lemma pack_inj a b : pack a = pack b -> a = b.
-Proof. unfold pack. intros H. inversion H. reflexivity. Qed.
+Proof. intros H. apply (f_equal unpack) in H. rewrite !unpack_pack in H. inversion H. reflexivity. Qed.
 
 Lemma map_pack_inj l l' : map pack l = map pack l' -> l = l'.
 Proof.
-  revert l'; induction l as [|a l IH]; intros [|b l'] H; cbn in H; try discriminate; auto.
-  inversion H. f_equal; auto.
+  revert l'; induction l as [|a l IH]; intros [|b l'] H; cbn [map] in H; try discriminate; auto.
+  pose proof (f_equal (hd (B 0)) H) as H1. pose proof (f_equal (@tl sym) H) as H2. cbn [hd tl] in H1, H2.
+  apply pack_inj in H1. f_equal; auto.
 Qed.
 
 Lemma unpack_all_map_pack l : unpack_all (map pack l) = Some l.
-Proof. induction l as [|a l IH]; cbn; [reflexivity|]. rewrite IH. reflexivity. Qed.
-
-Lemma unpack_spec x a : unpack x = Some a -> x = pack a.
-Proof.
-  destruct x as [z|f arg i]; cbn; [discriminate|].
-  destruct f; [|discriminate]. destruct i; [|discriminate]. intros H; inversion H. reflexivity.
-Qed.
-
-Lemma unpack_all_spec args l : unpack_all args = Some l -> args = map pack l.
-Proof.
-  revert l; induction args as [|x args IH]; intros l; cbn.
-  - intros H; inversion H. reflexivity.
-  - destruct (unpack x) eqn:E; [|discriminate]. destruct (unpack_all args) eqn:E2; [|discriminate].
-    intros H; inversion H; subst. cbn. f_equal; [apply unpack_spec, E|apply IH; reflexivity].
-Qed.
+Proof. induction l as [|a l IH]; cbn [map unpack_all]; [reflexivity|]. rewrite unpack_pack, IH. reflexivity. Qed.
 
 Lemma fapp_length f n l : length (fapp f n l) = n.
 Proof. apply fout_length. Qed.
